@@ -446,15 +446,16 @@ def hTassa (ps tok secret rhs : String) : Verdict :=
           if want != sh then .bad "tassa-shares" ("expected=" ++ want) else
           let sets := masks U
           let secretHex := (Fp.ofNat q s).toHex
-          -- `Reconstruct` needs at least two shares (a qualified singleton exists only when the top
-          -- threshold is 1, i.e. every party of the first level holds the secret itself)
-          let wantRec := sets.map fun S => if pol.isQualified S && S.length ≥ 2 then secretHex else "x"
-          match firstDiff wantRec (rec.splitOn ",") with
+          -- top threshold 1 (every first-level party is qualified on its own and simply holds the
+          -- secret): outside the range of the reconstruction clause; only mirrored (two shares needed,
+          -- degree test fails for the secret 0).  Otherwise: exactly the qualified sets, strictly.
+          let wantRec := sets.map fun S => if pol.isQualified S then secretHex else "x"
+          match (if topThreshold levels ≥ 2 then firstDiff wantRec (rec.splitOn ",") else none) with
           | some i => .bad "tassa-recon" ("subset=" ++ hexList (sets.getD i []) ++ " expected=" ++ wantRec.getD i "?")
           | none =>
             let val (id : Nat) : Fp q := Fp.ofNat q (((shv.find? (·.1 == id)).map (·.2.headD 0)).getD 0)
             let model := sets.map fun S =>
-              if pol.isQualified S && S.length ≥ 2 then
+              if pol.isQualified S then
                 match tassaReconstruct levels S val with | some v => v.toHex | none => "x"
               else "x"
             mirror (",".intercalate model) rec
